@@ -122,6 +122,22 @@ class C04(Check):
                 a, b = m0["data_start"], m1["data_start"]
                 d[a:a + n], d[b:b + n] = data[b:b + n], data[a:a + n]
                 add(bytes(d), 0, "swap"); add(bytes(d), 1, "swap")
+            # a transient failure of the source (ErrorKind::Interrupted, retried by read_to_end) must not switch the check off
+            if pw is None:
+                for idx, m in enumerate(man["entries"]):
+                    ds, de = m["data_start"], m["data_start"] + m["csize"]
+                    variants = [(data, "intact")]
+                    if de > ds:
+                        for p_ in r.sample(range(ds, de), min(4, de - ds)):
+                            d = bytearray(data); d[p_] ^= 1 << r.randrange(8)
+                            variants.append((bytes(d), "bitflip@%d" % p_))
+                    d = bytearray(data); d[m["central_start"] + 16] ^= 1
+                    variants.append((bytes(d), "crc^1"))
+                    for d, kind in variants:
+                        for k in (0, 1, 2, 5):
+                            meta = dict(seed=sname, idx=idx, kind=kind + "/hiccup%d" % k, ae2=False, content=m["content"], crc=m["crc"],
+                                        damaged=(kind != "intact"), impl_only=True)
+                            cases.append(("entry_hiccup %s %d %d %d" % (hexs(d), idx, k, r.choice([7, 16, 4096])), meta))
             # extraction is a read to end-of-file too: extract() (seekable, and streaming where the stream can walk the
             # archive) on damaged archives must fail, or every file it leaves must hash to the CRC its entry declares
             if pw is None:
